@@ -441,6 +441,37 @@ let check_ext id name crit score w =
     | _ -> ()
   end
 
+(* SUB: split() of an arbitrary sub-list (positions of the fit list; empty lists and lists that leave branches empty included):
+   every learner: the group of the model per sample; trees: the breadth-first split of exactly that list (bfs_done checked:
+   C10_tree_bfs_is_walk applies) *)
+let ext_sub = ref 0
+let check_sub tag (w : wl) (pos : string) (groups : string) =
+  Stdlib.incr total; Stdlib.incr ext_sub;
+  let ps = if pos = "-" then [] else List.map int_of_string (split ',' pos) in
+  let gs = if groups = "-" then [] else List.map String.trim (split ',' groups) in
+  let str = function None -> "-1" | Some z -> B.string_of_big_int z in
+  if List.length ps <> List.length gs then report "MISMATCH" "ext-sublist" tag ("malformed SUB line " ^ pos ^ " | " ^ groups)
+  else begin
+    let bad = ref false in
+    List.iter2 (fun p g -> if not !bad && str (group w (sample_of p)) <> g then begin
+        bad := true; report "MISMATCH" "ext-sublist" tag (Printf.sprintf "position %d of the list [%s]: model group=%s implementation=%s" p pos (str (group w (sample_of p))) g)
+      end) ps gs;
+    match w with
+    | WTree (nodes, _) when not !bad ->
+        let ss = List.map (fun p -> (nat_of_int p, sample_of p)) ps in
+        let fuel = nat_of_int (List.length nodes + 2) in
+        let q = [(B.zero_big_int, ss)] in
+        if not (bfs_done fuel nodes q) then report "MISMATCH" "ext-tree-bfs-fuel" tag ("the breadth-first split of the model does not empty its queue for the list [" ^ pos ^ "]")
+        else begin
+          let asg = tree_bfs fuel nodes q in
+          if ps = [] && asg <> [] then report "MISMATCH" "ext-tree-bfs" tag "the empty list is assigned groups by the model";
+          List.iter2 (fun p g -> if not !bad && str (assigned (nat_of_int p) asg) <> g then begin
+              bad := true; report "MISMATCH" "ext-tree-bfs" tag (Printf.sprintf "position %d of the list [%s]: breadth-first model group=%s implementation=%s" p pos (str (assigned (nat_of_int p) asg)) g)
+            end) ps gs
+        end
+    | _ -> ()
+  end
+
 (* the set-based breadth-first split of the model (tree_bfs) and the per-sample walk against split() of the library *)
 let check_tree_split tag (nodes : node list) (groups : string list) =
   Stdlib.incr total; Stdlib.incr ext_tree;
@@ -448,6 +479,9 @@ let check_tree_split tag (nodes : node list) (groups : string list) =
   let ss = List.init n (fun i -> (nat_of_int i, sample_of i)) in
   let asg = tree_bfs (nat_of_int (List.length nodes + 2)) nodes [(B.zero_big_int, ss)] in
   let bad = ref false in
+  if not (bfs_done (nat_of_int (List.length nodes + 2)) nodes [(B.zero_big_int, ss)]) then begin
+    bad := true; report "MISMATCH" "ext-tree-bfs-fuel" tag "the breadth-first split of the model does not empty its queue for the fit list"
+  end;
   List.iteri (fun i g ->
       if not !bad then begin
         let str = function None -> "-1" | Some z -> B.string_of_big_int z in
@@ -506,9 +540,14 @@ let () =
                          | Some wl -> check_preds "scale" tag (scale (qs_of sc) wl) (parse_preds preds)
                          | None -> ())
             | None -> ())
+       | ["SUB"; id; name; crit; "|"; pos; "|"; groups] ->
+           let tag = id ^ " " ^ name ^ " " ^ crit in
+           (match Hashtbl.find_opt learners tag with
+            | Some w -> (match parse_w w with Some wl -> check_sub tag wl pos groups | None -> ())
+            | None -> ())
        | ["MERGE"; id; "|"; before; "|"; after] -> check_merge id before after
        | _ -> ()
      done
    with End_of_file -> ());
-  Printf.printf "EXT-DONE kbest=%d ksplit=%d tree=%d crit=%d ties_skipped=%d crit_skipped=%d\n" !ext_kbest !ext_ksplit !ext_tree !ext_crit !ext_ties !ext_skipped;
+  Printf.printf "EXT-DONE kbest=%d ksplit=%d tree=%d crit=%d ties_skipped=%d crit_skipped=%d sub=%d\n" !ext_kbest !ext_ksplit !ext_tree !ext_crit !ext_ties !ext_skipped !ext_sub;
   Printf.printf "MODEL-DONE checked=%d mismatches=%d\n" !total !mism
